@@ -256,3 +256,17 @@ def verify_units(units):
   if (isinstance(units, bool) or not isinstance(units, numbers.Integral) or
       units < 1):
     raise ValueError("'units' must be a positive integer. Given: %s" % (units,))
+
+
+def verify_num_projection_iterations(num_projection_iterations):
+  """Verifies the `num_projection_iterations` hyperparameter.
+
+  Args:
+    num_projection_iterations: Number of iterations of the projection algorithm.
+
+  Raises:
+    ValueError: If `num_projection_iterations` is not an integer.
+  """
+  if not isinstance(num_projection_iterations, numbers.Integral):
+    raise ValueError("'num_projection_iterations' must be an integer. "
+                     "Given: %s" % (num_projection_iterations,))
